@@ -10,7 +10,7 @@
    created at any time, any consumer speed (a subscriber with [dropped = false] is one on which no
    broadcast timed out). *)
 From Coq Require Import List Arith NArith Bool.
-From GS Require Import LTS Fsm FsmTable FsmRunners FsmBase FsmGraph FsmWalk FsmStream FsmResult FsmMain.
+From GS Require Import LTS Fsm FsmTable FsmRunners FsmBase FsmGraph FsmWalk FsmStream FsmResult FsmMain FsmExtra FsmCandidate.
 Import ListNotations.
 
 (* ---------------- the lifecycle graph (re-checked against the regenerated table) ------------- *)
@@ -18,10 +18,14 @@ Import ListNotations.
 Theorem C08_graph_documented : forall a b, allowedb fsm_cfg a b = documented a b.
 Proof. exact table_is_documented. Qed.
 
-Theorem C08_graph_only_error_out_of_turn : forall a b,
-  allowedb fsm_cfg a b = true -> lifecycle_edge a b = false ->
-  b = Error \/ a = Error \/ (a = Stopped /\ b = New) \/ (a = Unknown /\ b = Unknown).
-Proof. exact only_error_out_of_turn. Qed.
+(* The edges of the dumped table that are NOT edges of the documented lifecycle are exactly the eleven
+   of [out_of_turn_edges]: entering Error from every state except Unknown (7), leaving Error towards
+   Stopping / Stopped (2), Stopped -> New (restart) and Unknown -> Unknown.  So "only Error may be
+   ENTERED out of turn" holds of the table only up to the four listed non-Error edges; the runners
+   never use the last two (C08_walk_strict). *)
+Theorem C08_graph_out_of_turn_edges : forall a b,
+  allowedb fsm_cfg a b && negb (lifecycle_edge a b) = in_edges a b out_of_turn_edges.
+Proof. exact out_of_turn_exact. Qed.
 
 Theorem C08_graph_lifecycle_present : forall a b, lifecycle_edge a b = true -> allowedb fsm_cfg a b = true.
 Proof. exact lifecycle_in_table. Qed.
@@ -61,6 +65,16 @@ Theorem C08_walk_cluster : forall s, kreach s ->
   walk fsm_cfg New (hist (rm s)) /\ cur (rm s) = last (hist (rm s)) New.
 Proof. exact walk_cluster_spec. Qed.
 
+(* Sharper, and what the English says for the runners: every step of the history is an edge of the
+   documented lifecycle, or enters Error, or leaves Error towards Stopping / Stopped (the shutdown of a
+   failed runner - the one kind of step that is neither "in turn" nor "entering Error").  The table's
+   Stopped -> New and Unknown -> Unknown are never taken. *)
+Theorem C08_walk_strict :
+  (forall s, creach s -> walkb runner_edge New (hist (rm s)) = true) /\
+  (forall s, hreach s -> walkb runner_edge New (hist (rm s)) = true) /\
+  (forall s, kreach s -> walkb runner_edge New (hist (rm s)) = true).
+Proof. exact strict_walks. Qed.
+
 (* the machine alone, for any program of calls whose SetState calls all target Error *)
 Theorem C08_walk_machine : forall ls s,
   (forall o ok, In (LOp o ok) ls -> op_fine o = true) ->
@@ -69,10 +83,21 @@ Theorem C08_walk_machine : forall ls s,
 Proof. exact (machine_walk fsm_cfg). Qed.
 
 (* ---------------- C08_isrunning ---------------- *)
-(* IsRunning() can return b in a state iff b = (state = Running); it changes nothing. *)
+(* IsRunning() can return b in a state iff b = (state = Running); it changes nothing.
+   DEFINITIONAL: this is the guard of the label [LIsRun] in model/Fsm.v read back (all three runners
+   implement IsRunning as GetState() == Running); it is tied to the code only by the dynamic poll check. *)
 Theorem C08_isrunning : forall s b s',
   step fsm_cfg s (LIsRun b) = Some s' <-> (b = is_running (cur s) /\ s' = s).
 Proof. exact isrunning_machine. Qed.
+
+(* With content: the two observation channels agree.  For a registered subscriber that keeps up and
+   whose pipeline is drained (nothing in the wrapped channel, the forwarder's hand, the manager channel
+   or a pending broadcast), IsRunning() answers true exactly when the LAST value it received is Running. *)
+Theorem C08_isrunning_stream : forall s i x b s',
+  mreach s -> nth_error (subs s) i = Some x -> dropped x = false -> sg x = SLive -> unsub x = false ->
+  wch x = [] -> hand x = None -> bch x = [] -> memn i (pend s) = false ->
+  (step fsm_cfg s (LIsRun b) = Some s' <-> (b = is_running (last (got x) New) /\ s' = s)).
+Proof. exact isrunning_stream. Qed.
 
 (* ---------------- C08_stream ---------------- *)
 (* What the code guarantees (all schedules): a subscriber on which no broadcast timed out has
@@ -125,15 +150,34 @@ Theorem C08_stream_close_progress : forall s i x,
   exists l, In l (pipeline_labels i) /\ step fsm_cfg s l <> None.
 Proof. exact close_progress_machine. Qed.
 
-(* The property as stated (s0 :: later changes, up to ONE leading duplicate) holds when at most one
-   state change falls between the subscriber's registration and its read of the state... *)
+(* The property as stated, when at most one state change falls between the subscriber's registration
+   and its read of the state (both inside its GetStateChan call).  Exactly:
+   - no change in that window: the stream is  s0 :: later  (s0 the state read, later = every later change);
+   - one change in that window: that change's value arrives TWICE - once as the state read, once as its
+     broadcast -  s0 :: s0 :: later  (unless the subscriber was un-registered before that change: [s0]).
+   The duplicate is NOT the finding stream:stale-replay (that needs two changes in the window, see
+   C08_stream_refuted); it is the "subscribe, then read" window of the code with ONE change in it.  It is a
+   repeated value, not a state change: a consumer that ignores a repeated first value sees exactly
+   s0 :: later, which is a walk (C08_stream_later_walk).  The claim text says so. *)
 Theorem C08_stream_partial : forall s i x,
   mreach s -> nth_error (subs s) i = Some x -> dropped x = false -> sg x = SLive ->
   read_at x <= S (reg_at x) ->
+  let u := endp (length (hist s)) x in
   let s0 := state_at (hist s) (read_at x) in
-  let later := segment (hist s) (read_at x) (endp (length (hist s)) x) in
-  exists rest, got x ++ rest = s0 :: later \/ got x ++ rest = s0 :: s0 :: later.
-Proof. exact stream_partial. Qed.
+  let later := segment (hist s) (read_at x) u in
+  exists rest,
+    (read_at x = reg_at x -> got x ++ rest = s0 :: later) /\
+    (read_at x = S (reg_at x) -> reg_at x < u -> got x ++ rest = s0 :: s0 :: later) /\
+    (read_at x = S (reg_at x) -> u <= reg_at x -> got x ++ rest = [s0]).
+Proof. exact stream_one_window. Qed.
+
+(* s0 :: later is a walk in the table (only Error out of turn), for every machine whose history is one
+   (C08_walk_composite/_http/_cluster give [is_walk (rm s)] for the three runners) *)
+Theorem C08_stream_later_walk : forall s i x,
+  mreach s -> is_walk s -> nth_error (subs s) i = Some x -> dropped x = false -> sg x = SLive ->
+  walk fsm_cfg (state_at (hist s) (read_at x))
+       (segment (hist s) (read_at x) (endp (length (hist s)) x)).
+Proof. exact stream_later_walk. Qed.
 
 (* ... and is REFUTED in general (finding "stale replay"): with two changes in that window the
    subscriber receives the current state and then the older change again — here Running, Booting,
@@ -166,8 +210,30 @@ Proof. exact result_composite_partial. Qed.
 Theorem C08_result_composite_refuted : exists s, creach s /\ c_run (rc s) = CPDone true Error.
 Proof. exact result_composite_refuted. Qed.
 
+(* ---------------- candidate repairs (NOT in the repository; hooks/candidate-fix-c08-*.patch) ---- *)
+(* These two theorems are about model VARIANTS prepared behind switches, i.e. about what the patches
+   would establish once applied (the repository's own unedited tests pass with either); they say nothing
+   about the code as it is. *)
+
+(* (a) finitestate: "register + read current state" atomic w.r.t. state changes ([step_fixsub], a
+   restriction of [step]): the stream is exactly s0 :: later changes - no duplicate, no stale replay. *)
+Theorem C08_candidate_a_stream : forall ls s i x,
+  run (step_fixsub fsm_cfg) init ls = Some s -> nth_error (subs s) i = Some x ->
+  dropped x = false -> sg x = SLive ->
+  read_at x = reg_at x /\
+  exists rest, got x ++ rest =
+               state_at (hist s) (read_at x) :: segment (hist s) (read_at x) (endp (length (hist s)) x).
+Proof. exact candidate_a_stream. Qed.
+
+(* (b) composite: Run keeps reloadMu from its teardown until it has returned ([composite_stepx true true]):
+   the full C08_result statement. *)
+Theorem C08_candidate_b_result : forall ls s b a,
+  run composite_fixed_rstep (rinit cctl composite_init) ls = Some s -> c_run (rc s) = CPDone b a ->
+  (a = Stopped <-> b = true) /\ (b = false -> a = Error).
+Proof. exact candidate_b_result. Qed.
+
 Print Assumptions C08_graph_documented.
-Print Assumptions C08_graph_only_error_out_of_turn.
+Print Assumptions C08_graph_out_of_turn_edges.
 Print Assumptions C08_graph_lifecycle_present.
 Print Assumptions C08_graph_error_from_everywhere.
 Print Assumptions C08_graph_stopped_reachable.
@@ -179,7 +245,9 @@ Print Assumptions C08_walk_composite.
 Print Assumptions C08_walk_http.
 Print Assumptions C08_walk_cluster.
 Print Assumptions C08_walk_machine.
+Print Assumptions C08_walk_strict.
 Print Assumptions C08_isrunning.
+Print Assumptions C08_isrunning_stream.
 Print Assumptions C08_stream.
 Print Assumptions C08_stream_runners.
 Print Assumptions C08_stream_closed.
@@ -187,11 +255,14 @@ Print Assumptions C08_stream_in_flight.
 Print Assumptions C08_stream_closed_only_after_cancel.
 Print Assumptions C08_stream_close_progress.
 Print Assumptions C08_stream_partial.
+Print Assumptions C08_stream_later_walk.
 Print Assumptions C08_stream_refuted.
 Print Assumptions C08_result_http.
 Print Assumptions C08_result_cluster.
 Print Assumptions C08_result_composite_partial.
 Print Assumptions C08_result_composite_refuted.
+Print Assumptions C08_candidate_a_stream.
+Print Assumptions C08_candidate_b_result.
 
 (* non-vacuity: the hypotheses are met by concrete schedules, and the models compute *)
 
@@ -213,12 +284,39 @@ Example C08_ex_http_cycle :
             hist (rm s) = [Booting; Running; Reloading; Running; Stopping; Stopped].
 Proof. eexists. split; [vm_compute; reflexivity|]. split; reflexivity. Qed.
 
-(* Stop racing a Reload in the httpserver model: error result, Error state (consistent) *)
+(* Stop racing a Reload in the httpserver model (code since /repo a31573a: shutdown takes r.mutex
+   before Transition(Stopping)): Run waits for the Reload, then stops cleanly - nil, Stopped *)
 Definition C08_http_stop_during_reload : list (rlabel hcl) :=
   map RC [HRunCall; HTBooting; HBootOk; HTRunning; HReloadCall; HRlBegin; HRlT; HStopCall; HSelStop;
-          HTStopping; HCb true; HRlSame; HRlTRunning; HRlDone; HStopSrvOk; HTStopped; HErrT; HRunRet false].
+          HCb true; HRlSame; HRlTRunning; HRlDone; HTStopping; HStopSrvOk; HTStopped; HRunRet true].
 Example C08_ex_http_stop_during_reload :
   exists s, run http_rstep (rinit hctl http_init) C08_http_stop_during_reload = Some s /\
+            h_run (rc s) = HPDone true Stopped /\
+            hist (rm s) = [Booting; Running; Reloading; Running; Stopping; Stopped].
+Proof. eexists. split; [vm_compute; reflexivity|]. split; reflexivity. Qed.
+
+(* ... the Stopping transition is not enabled while the Reload holds the mutex, *)
+Example C08_ex_http_stopping_waits_for_reload :
+  run http_rstep (rinit hctl http_init)
+      (map RC [HRunCall; HTBooting; HBootOk; HTRunning; HReloadCall; HRlBegin; HRlT; HStopCall; HSelStop;
+               HTStopping]) = None.
+Proof. vm_compute. reflexivity. Qed.
+
+(* ... and a Reload cannot begin while Run holds it between Stopping and the end of stopServer. *)
+Example C08_ex_http_reload_waits_for_shutdown :
+  run http_rstep (rinit hctl http_init)
+      (map RC [HRunCall; HTBooting; HBootOk; HTRunning; HStopCall; HSelStop; HTStopping; HReloadCall;
+               HRlBegin]) = None.
+Proof. vm_compute. reflexivity. Qed.
+
+(* The legacy variant (before a31573a, [http_stepx false]) did Transition(Stopping) outside the mutex:
+   the same race ended with an error result and state Error (consistent, but a needless failure). *)
+Definition C08_http_legacy_rstep := rstep fsm_cfg hctl hcl (http_stepx false) http_tok.
+Example C08_ex_http_stop_during_reload_legacy :
+  exists s, run C08_http_legacy_rstep (rinit hctl http_init)
+                (map RC [HRunCall; HTBooting; HBootOk; HTRunning; HReloadCall; HRlBegin; HRlT; HStopCall;
+                         HSelStop; HTStopping; HCb true; HRlSame; HRlTRunning; HRlDone; HStopSrvOk;
+                         HTStopped; HErrT; HRunRet false]) = Some s /\
             h_run (rc s) = HPDone false Error.
 Proof. eexists. split; [vm_compute; reflexivity|reflexivity]. Qed.
 
@@ -240,3 +338,42 @@ Example C08_ex_subscriber :
   exists s x, run (step fsm_cfg) init C08_sub_run = Some s /\ nth_error (subs s) 0 = Some x /\
               got x = [Booting; Running] /\ gotclosed x = true /\ dropped x = false.
 Proof. eexists. eexists. split; [vm_compute; reflexivity|]. repeat split; reflexivity. Qed.
+
+(* one change between registration and read: its value arrives twice (hypotheses of C08_stream_partial,
+   second case, and of C08_isrunning_stream: kept up, registered, pipeline drained) *)
+Example C08_ex_one_duplicate :
+  exists s x, run (step fsm_cfg) init dup_witness = Some s /\ nth_error (subs s) 0 = Some x /\
+              dropped x = false /\ sg x = SLive /\ reg_at x = 0 /\ read_at x = 1 /\
+              hist s = [Booting; Running] /\ got x = [Booting; Booting; Running].
+Proof. exact one_duplicate_exists. Qed.
+
+Example C08_ex_isrunning_stream :
+  exists s x, run (step fsm_cfg) init dup_witness = Some s /\ nth_error (subs s) 0 = Some x /\
+              unsub x = false /\ wch x = [] /\ hand x = None /\ bch x = [] /\ memn 0 (pend s) = false /\
+              last (got x) New = Running /\ step fsm_cfg s (LIsRun true) = Some s.
+Proof.
+  pose proof dup_witness_runs as E. unfold dup_witness_state in E.
+  eexists. eexists. split; [exact E|]. repeat (split; [reflexivity|]). vm_compute. reflexivity.
+Qed.
+
+(* the out-of-turn edges are really in the table, and the strict walk is not vacuous *)
+Example C08_ex_out_of_turn : forallb (fun p => allowedb fsm_cfg (fst p) (snd p)) out_of_turn_edges = true
+                             /\ length out_of_turn_edges = 11.
+Proof. split; vm_compute; reflexivity. Qed.
+
+(* the candidate variants still run ordinary schedules, and no longer run the two findings' witnesses *)
+Example C08_ex_candidate_a :
+  (exists s x, run (step_fixsub fsm_cfg) init
+                  [LOp (OTrans Booting) true; LSub; LRead 0; LOp (OTrans Running) true; LDeliver 0;
+                   LRecv 0 Booting; LFwdTake 0; LFwdPut 0; LRecv 0 Running] = Some s /\
+               nth_error (subs s) 0 = Some x /\ got x = [Booting; Running] /\ dropped x = false /\ sg x = SLive)
+  /\ run (step_fixsub fsm_cfg) init stream_witness = None.
+Proof. exact (conj candidate_a_nonvacuous candidate_a_blocks_witness). Qed.
+
+Example C08_ex_candidate_b :
+  (exists s, run composite_fixed_rstep (rinit cctl composite_init)
+                (map RC [CRunCall; CTBooting; CCb true; CTRunning; CStopCall; CSelStop; CTStopping; CStopAllOk;
+                         CTStopped; CRunRet true; CReloadCall; CRlBegin; CRlT; CRlSetErr]) = Some s /\
+             c_run (rc s) = CPDone true Stopped /\ cur (rm s) = Error)
+  /\ run composite_fixed_rstep (rinit cctl composite_init) composite_witness = None.
+Proof. exact (conj candidate_b_nonvacuous candidate_b_blocks_witness). Qed.
